@@ -33,6 +33,12 @@ def lib():
 # colliding suffix families --------------------------------------------------
 # gnu_hash: h*33+c  => suffixes (x,y) and (x+1,y-33) collide fully; (x,y),(x,y^1) differ only in bit 0 (for suitable parity)
 # sysv elf_hash: (h<<4)+c => (x,y) and (x+1,y-16) collide (no overflow for short names)
+# CARRY_NAMES: names on which (h << 4) + c carries out of bit 31 (the 28-bit state is >= 0x0ffffff1 when a character is added).  The gABI
+# value is a 32-bit word (Elf32_Word buckets; bfd_elf_hash returns h & 0xffffffff, glibc's _dl_elf_hash is uint32_t since BZ #29866), so an
+# evaluation in wider integers that keeps the carry selects another bucket.  One name in about 2^24 random ones does this: found offline by a
+# backward search over the transition (meet in the middle with all prefixes of <= 3 characters), verified below against the encoder's own
+# hash (not the library's) every time the module is loaded; any continuation of such a name keeps the carry.
+CARRY_NAMES = ['5tyjXyO@Ma', '0$Dyhvk$0Ml', '0$H9hvk$0M0', 'hmql9cYy$Ml', 'GuzZZTmA.N', 'fmkIm$MZ.T', 'OmxIjTcdoMC', '@8yijTz.g', 'tykKHqpMD', '$IxzZY@m.8', 'Yxyl8sm.z', '5tzZXyO@ML', '$$dxyiCb0MV', 'AGkL8ucp.d', 'xyl9l5LMq', 'Nvl9ifGOMZ', '8ykIjZ.V', '_HoJZRyLJ.g', 'FykL8x.Mw', 'txykHqpMa', '0$FYhvk$0Mu', '7yzZYglM.M', '0_KIl5tZ.3', '8xyl8yLMH', 'DwuzYh.zoMq', 'LnyihvJ$mv', 'UxyhzWOM_', '$5kKL6qpMg', 'atzZXv0olMu', '09l8zXJ.t', 'XxxxzWLMI', 'NvkIifGOMo', '$7yl8wd_.L', '$WlIjVqmM.e', '_IkJZTZ.5', 'DwxJYh.zoMG', '8xzZXyLMJ', 'Omy9jTcdoMO', '$VzijVqmM..', 'NykL8x$mb', '9kKKL99z', 'vyiil5Los', '5ykHyiN_5']
 GNU_FAM = ['ab', 'bA', 'ac', 'bB', 'c!', 'aa', 'b@']
 SYSV_FAM = ['ab', 'bR', 'cB', 'ac', 'bS']
 # the symbol machinery is the same for every e_machine; the values of the gABI table that toolchains still emit, plus unassigned ones
@@ -44,12 +50,28 @@ WIDE_HASH_MACHINES = (22, 41, 0x9026, 0xa390)
 PREFIXES = ['', 'f', 'x_', 'sym', 'é', 'λ', 'very_long_symbol_name_' * 4]
 
 
+def _sysv_unbounded(name):
+    h = 0
+    for c in name:
+        h = (h << 4) + c
+        g = h & 0xf0000000
+        if g:
+            h ^= g >> 24
+        h &= ~g
+    return h
+
+
 def name_pool():
     pool = ['']
     for p in PREFIXES:
         for s in GNU_FAM + SYSV_FAM:
             pool.append(p + s)
     pool += ['a', 'b', 'c', 'd', 'aa', 'main', '_start', 'printf', '中文名字', 'Ünïcödé'] + textpool.SPECIAL_NAMES
+    for i, n in enumerate(CARRY_NAMES):
+        assert _sysv_unbounded(n.encode()) != W.sysv_hash(n.encode()) == _sysv_unbounded(n.encode()) & 0xffffffff, n
+        pool.append(n)
+        if i % 3 == 0:
+            pool.append(n + SYSV_FAM[i % len(SYSV_FAM)])
     out = []
     for n in pool:
         if n not in out:
